@@ -864,7 +864,28 @@ class EngineC13:
             res.bump("probe:stopped_early")
         return self._compare_with_fresh(w, step, i, res, out, M, info, trace, epochs, cls, spec, V)
 
+    def _keep_result(self, w, M, info):
+        """Remember what a solve handed back (the objects themselves and a private copy of their content)."""
+        arrays = [("weights", M.weights)] + [(f"factor {n}", f) for n, f in enumerate(M.factor_matrices)]
+        if isinstance(info, dict):
+            for k in ("f_est_trace", "step_trace", "time_trace"):
+                if isinstance(info.get(k), np.ndarray):
+                    arrays.append((k, info[k]))
+        w.setdefault("kept", []).append((w["solve_no"], [(nm, a, np.array(a, copy=True)) for nm, a in arrays]))
+
+    def _check_kept(self, w, V):
+        """What earlier solves returned belongs to the caller: a later solve must not have changed it."""
+        for no, arrays in w.get("kept", []):
+            for nm, a, snap in arrays:
+                if a.shape != snap.shape or not np.array_equal(a, snap, equal_nan=True):
+                    return V("earlier_result_unchanged_by_later_solve", f"{nm} returned by solve #{no} changed during solve #{w['solve_no']}: {np.asarray(a).reshape(-1)[:6].tolist()} was {snap.reshape(-1)[:6].tolist()}")
+        return None
+
     def _compare_with_fresh(self, w, step, i, res, out, M, info, trace, epochs, cls, spec, V):
+        v = self._check_kept(w, V)
+        if v is not None:
+            return v
+        self._keep_result(w, M, info)
         # differential: fresh optimizer, same stream, other clock
         fresh = self._make_optimizer(spec)
         ref = self._solve_once(fresh, step, step["tick"] * 7.0 + 0.125, False)
@@ -953,6 +974,10 @@ class EngineC13:
             return V("lbfgsb_never_worse_than_start", f"objective at result {f1!r} > at start {f0!r}")
         if np.isnan(f1):
             res.bump("probe:nan_estimate")
+        v = self._check_kept(w, V)
+        if v is not None:
+            return v
+        self._keep_result(w, M, None)
         fresh = self._make_optimizer(spec, w.get("user_cb"))
         ref = self._solve_once(fresh, step, step["tick"] * 3.0 + 0.5, False)
         if "error" in ref:
